@@ -53,7 +53,7 @@ def random_items(ctx, n, pools=False):
     for t in range(n):
         vg = gen.VGen(500000 + t * 5000)
         cfg = gen.rand_cfg(rng)
-        klass = rng.choice(["plain", "plain", "unordered", "bigvals", "bigkeys", "prefixes", "empty", "emptykey", "cutprobe"])
+        klass = rng.choice(["plain", "plain", "unordered", "bigvals", "bigkeys", "prefixes", "empty", "emptykey", "cutprobe", "sepcarry"])
         alpha = rng.choice([list(range(256)), gen.ALPHA6, [0x61, 0x62], [0x7f, 0x80, 0xff]])
         adds = []
         if klass == "empty":
@@ -61,6 +61,10 @@ def random_items(ctx, n, pools=False):
         elif klass == "bigkeys":
             base = rng.choice([127, 128, 16383, 16384, 300])
             keys = sorted(set(bytes([rng.choice(alpha)]) * (base + rng.choice([-1, 0, 0, 1])) + gen.rand_key(rng, alpha, 2) for _ in range(rng.randint(1, 5))))
+        elif klass == "sepcarry":
+            # adjacent keys whose first differing bytes are consecutive and followed by FF / 00: the 16-bit separator branch with carry
+            p0 = bytes(rng.choice(alpha) for _ in range(rng.choice([0, 1, 5])))
+            keys = sorted(set(p0 + bytes([0x20 + i, rng.choice([0xFF, 0xFF, 0x00, 0xFE]), rng.choice(alpha)]) + gen.rand_key(rng, alpha, 2) for i in range(rng.randint(4, 40))))
         elif klass == "prefixes":
             p = bytes(rng.choice(alpha) for _ in range(rng.choice([3, 40, 200])))
             keys = sorted(set(p + gen.rand_key(rng, alpha, 3) for _ in range(rng.randint(2, 60))))
@@ -69,7 +73,9 @@ def random_items(ctx, n, pools=False):
         if klass == "emptykey" or rng.random() < 0.2:
             keys = sorted(set(keys + [b""]))
         for k in keys:
-            if klass == "bigvals":
+            if klass == "sepcarry":
+                vl = rng.choice([200, 300, 500])
+            elif klass == "bigvals":
                 vl = rng.choice([0, 127, 128, 129, 256, 16383, 16384, 70000, 3000])
             elif klass == "emptykey" and k == b"":
                 vl = rng.choice([0, 128, 256, 16384, 5])
